@@ -317,4 +317,162 @@ theorem Coils.iter_packBits (bs : List Bool) (tail : Bytes) :
   have := Coils.iterFrom_packBits bs tail (bs.length + 1) 0 [] (by omega) (by omega)
   simpa using this
 
+theorem Coils.iter_packBits_exact (bs : List Bool) : (Coils.mk (Spec.packBits bs) bs.length).iter = .ok bs := by
+  simpa using Coils.iter_packBits bs []
+
+/-! ### the wire form of a coil container: `Coils::copy_to` clears the unused bits of the last byte -/
+
+/-- a coil container's slice holds (at least) the ⌈quantity/8⌉ bytes its quantity promises -/
+def Coils.Backed (c : Coils) : Prop := packedCoilsLen c.quantity ≤ c.data.length
+
+instance (c : Coils) : Decidable c.Backed := by unfold Coils.Backed; infer_instance
+
+/-- the coils of a container, read straight off its slice: coil `i` is bit `i mod 8` of byte `i div 8` -/
+def Coils.bits (c : Coils) : List Bool := (List.range c.quantity).map (bitAt c.data)
+
+@[simp] theorem Coils.bits_length (c : Coils) : c.bits.length = c.quantity := by simp [Coils.bits]
+
+theorem Coils.bits_getElem (c : Coils) (i : Nat) (h : i < c.bits.length) : c.bits[i] = bitAt c.data i := by
+  simp [Coils.bits]
+
+/-- the unused bits of the last used byte (positions `quantity ≤ p < 8·⌈quantity/8⌉`) are zero -/
+def Coils.CleanPad (c : Coils) : Prop :=
+  ∀ p, p < 8 * packedCoilsLen c.quantity → c.quantity ≤ p → bitAt c.data p = false
+
+instance (c : Coils) : Decidable c.CleanPad := by unfold Coils.CleanPad; infer_instance
+
+/-- `x & ((1 << k) - 1)` keeps bit `j` exactly when `j < k` -/
+theorem bitOf_maskLow (x : UInt8) (k j : Nat) : bitOf (maskLow x k) j = (decide (j < k) && bitOf x j) := by
+  unfold bitOf maskLow
+  have hx := x.toNat_lt
+  have hm : x.toNat % 2 ^ k < 2 ^ 8 := Nat.lt_of_le_of_lt (Nat.mod_le _ _) hx
+  rw [UInt8.toNat_ofNat', Nat.mod_eq_of_lt hm, Nat.testBit_mod_two_pow]
+
+theorem maskLow_eight (x : UInt8) {k : Nat} (h : 8 ≤ k) : maskLow x k = x := by
+  apply UInt8.eq_of_bitOf_eq
+  intro j hj
+  rw [bitOf_maskLow]
+  simp [show j < k by omega]
+
+@[simp] theorem maskLastByte_length (raw : Bytes) (k : Nat) : (maskLastByte raw k).length = raw.length := by
+  simp only [maskLastByte, List.length_append, List.length_take, List.length_map, List.length_drop]
+  omega
+
+theorem bitAt_take (data : Bytes) (n p : Nat) (h : p < 8 * n) : bitAt (data.take n) p = bitAt data p := by
+  unfold bitAt
+  have : p / 8 < n := by omega
+  simp only [List.getD_eq_getElem?_getD, List.getElem?_take, this, if_true]
+
+theorem bitAt_map (f : UInt8 → UInt8) (hf : f 0 = 0) (l : Bytes) (p : Nat) :
+    bitAt (l.map f) p = bitOf (f (l.getD (p / 8) 0)) (p % 8) := by
+  unfold bitAt
+  simp only [List.getD_eq_getElem?_getD, List.getElem?_map]
+  cases l[p / 8]? <;> simp [hf]
+
+theorem maskLow_zero (k : Nat) : maskLow 0 k = 0 := by
+  apply UInt8.eq_of_bitOf_eq
+  intro j _
+  rw [bitOf_maskLow]; simp
+
+/-- bits of the masked copy: everything before the last byte unchanged, the last byte keeps its low `k` bits -/
+theorem bitAt_maskLastByte (raw : Bytes) (k p : Nat) :
+    bitAt (maskLastByte raw k) p =
+      if p < 8 * (raw.length - 1) then bitAt raw p else (decide (p % 8 < k) && bitAt raw p) := by
+  unfold maskLastByte
+  rw [bitAt_append]
+  have hl : (raw.take (raw.length - 1)).length = raw.length - 1 := by rw [List.length_take]; omega
+  rw [hl]
+  by_cases hp : p < 8 * (raw.length - 1)
+  · rw [if_pos hp, if_pos hp, bitAt_take _ _ _ hp]
+  · rw [if_neg hp, if_neg hp, bitAt_map _ (maskLow_zero k), bitOf_maskLow]
+    have e1 : (p - 8 * (raw.length - 1)) % 8 = p % 8 := by omega
+    have e2 : (p - 8 * (raw.length - 1)) / 8 = p / 8 - (raw.length - 1) := by omega
+    rw [e1, e2]
+    congr 1
+    unfold bitAt
+    simp only [List.getD_eq_getElem?_getD, List.getElem?_drop]
+    congr 3
+    omega
+
+/-- the bytes `Coils::copy_to` stores: the first ⌈n/8⌉ bytes of the slice, the unused high bits of the last
+    one cleared -/
+def Coils.wire (c : Coils) : Bytes :=
+  if c.quantity % 8 = 0 then c.data.take c.packedLen
+  else maskLastByte (c.data.take c.packedLen) (c.quantity % 8)
+
+theorem Coils.wire_of_multiple (c : Coils) (h : c.quantity % 8 = 0) : c.wire = c.data.take c.packedLen := by
+  unfold Coils.wire; rw [if_pos h]
+
+theorem Coils.copyBytes_eq (c : Coils) :
+    c.copyBytes = if c.data.length < c.packedLen then .panic else .ok c.wire := by
+  unfold Coils.copyBytes Coils.wire
+  by_cases h : c.data.length < c.packedLen
+  · simp [h]
+  · by_cases h8 : c.quantity % 8 = 0 <;> simp [h, h8]
+
+@[simp] theorem Coils.wire_length (c : Coils) : c.wire.length = min c.packedLen c.data.length := by
+  unfold Coils.wire
+  split <;> simp
+
+/-- bit `p` of the wire form: coil `p` below the quantity, zero above -/
+theorem Coils.Backed.bitAt_wire {c : Coils} (h : c.Backed) (p : Nat) (hp : p < 8 * packedCoilsLen c.quantity) :
+    bitAt c.wire p = (decide (p < c.quantity) && bitAt c.data p) := by
+  have h : packedCoilsLen c.quantity ≤ c.data.length := h
+  have hb := packedCoilsLen_bound c.quantity
+  unfold Coils.wire Coils.packedLen
+  by_cases h8 : c.quantity % 8 = 0
+  · rw [if_pos h8, bitAt_take _ _ _ hp]
+    have : p < c.quantity := by unfold packedCoilsLen at hp; omega
+    simp [this]
+  · rw [if_neg h8, bitAt_maskLastByte, List.length_take, Nat.min_eq_left h, bitAt_take _ _ _ hp]
+    unfold packedCoilsLen at hp hb ⊢
+    by_cases h1 : p < 8 * ((c.quantity + 7) / 8 - 1)
+    · rw [if_pos h1]
+      have : p < c.quantity := by omega
+      simp [this]
+    · rw [if_neg h1]
+      congr 1
+      rw [decide_eq_decide]
+      constructor <;> intro h' <;> omega
+
+/-- **zero padding on the wire**: whatever the raw bytes of a backed container hold, the bytes `copy_to`
+    stores are the specification's packed field of its coils -/
+theorem Coils.Backed.wire_eq_packBits {c : Coils} (h : c.Backed) : c.wire = Spec.packBits c.bits := by
+  have h' : packedCoilsLen c.quantity ≤ c.data.length := h
+  apply Bytes.ext_bitAt
+  · rw [Coils.wire_length, packBits_length, Coils.bits_length, Coils.packedLen]; omega
+  · intro p hp
+    rw [Coils.wire_length, Coils.packedLen, Nat.min_eq_left h'] at hp
+    rw [h.bitAt_wire p hp, bitAt_packBits]
+    by_cases hq : p < c.quantity
+    · rw [getD_eq_getElem _ _ (by simpa using hq), Coils.bits_getElem]; simp [hq]
+    · simp [hq, List.getD_eq_getElem?_getD, List.getElem?_eq_none (show c.bits.length ≤ p by simp; omega)]
+
+theorem Coils.copyBytes_eq_packBits {c : Coils} (h : c.Backed) : c.copyBytes = .ok (Spec.packBits c.bits) := by
+  have h' : packedCoilsLen c.quantity ≤ c.data.length := h
+  rw [Coils.copyBytes_eq, if_neg (by unfold Coils.packedLen; omega), h.wire_eq_packBits]
+
+/-- with clean padding the masking changes nothing: the wire form is the used prefix of the slice -/
+theorem Coils.Backed.wire_eq_take {c : Coils} (h : c.Backed) (hc : c.CleanPad) :
+    c.wire = c.data.take (packedCoilsLen c.quantity) := by
+  have h' : packedCoilsLen c.quantity ≤ c.data.length := h
+  apply Bytes.ext_bitAt
+  · rw [Coils.wire_length, List.length_take, Coils.packedLen]
+  · intro p hp
+    rw [Coils.wire_length, Coils.packedLen, Nat.min_eq_left h'] at hp
+    rw [h.bitAt_wire p hp, bitAt_take _ _ _ hp]
+    by_cases hq : p < c.quantity
+    · simp [hq]
+    · simp [hq, hc p hp (by omega)]
+
+/-- the specification's packed field is its own wire form -/
+theorem Coils.wire_packBits (bs : List Bool) : (Coils.mk (Spec.packBits bs) bs.length).wire = Spec.packBits bs := by
+  have hb : (Coils.mk (Spec.packBits bs) bs.length).Backed := by
+    show packedCoilsLen bs.length ≤ (Spec.packBits bs).length
+    rw [packBits_length]; exact Nat.le_refl _
+  rw [hb.wire_eq_packBits]
+  congr 1
+  have := map_bitAt_packBits bs []
+  simpa [Coils.bits] using this
+
 end Modbus
